@@ -3,7 +3,7 @@
    prod, unit, sumbool -> OCaml's); nat, N, Z, positive stay the extracted inductive types;
    no Extract Constant. *)
 From Coq Require Extraction ExtrOcamlBasic.
-From NV Require Model.Base Model.Diag Model.Errors Model.Cli Model.NumRe Model.Lexer Spec.TruePos Spec.Normalise Spec.LexProps Model.Engine Spec.CConst.
+From NV Require Model.Base Model.Diag Model.Errors Model.Cli Model.NumRe Model.Lexer Spec.TruePos Spec.Normalise Spec.LexProps Model.Engine Spec.CConst Spec.Width.
 Extraction Language OCaml.
 Set Extraction KeepSingleton.
 Extraction "../build/ml/nvmodel.ml"
@@ -22,4 +22,5 @@ Extraction "../build/ml/nvmodel.ml"
   Spec.CConst.lex_one_ok Spec.CConst.lex_one_diag Spec.CConst.malformed Spec.CConst.malformed_open
   Spec.CConst.shape_k1 Spec.CConst.shape_hex_e_suffix Spec.CConst.shape_hexfloat_empty_part
   Spec.CConst.shape_hexfloat_hex_suffix Spec.CConst.shape_ucn Spec.CConst.shape_long_hex
-  Gen.LexTables.integer_suffixes Gen.LexTables.float_suffixes.
+  Gen.LexTables.integer_suffixes Gen.LexTables.float_suffixes
+  Spec.Width.line_width Spec.Width.line_len_check Spec.Width.block_comment_check Spec.Width.line_comment_check.
